@@ -57,6 +57,19 @@ class ProbeGen:
         self.rows = {}       # (path, op, byte) -> (type_expr, statement)
         self.conv = []
         self.n = 0
+        # documented tag path of every composite (types::<composite>[::<inline composite>...]); element tags are spelled
+        # through it, not through the tag of the field/ref that leads there (those only inherit from it and a member
+        # named like them is hidden by the injected class name)
+        self.comp_tag = {}
+
+        def walk(c, tag):
+            self.comp_tag[id(c)] = tag
+            for e in c.elements:
+                if e.kind == "composite":
+                    walk(e, tag + "::" + e.name)
+        for ty in schema.types:
+            if ty.kind == "composite":
+                walk(ty, "::%s::schema::types::%s" % (self.pkg, ty.name))
 
     def uid(self):
         self.n += 1
@@ -118,6 +131,7 @@ class ProbeGen:
             self.rows[(path, op, byte)] = (type_expr, LIB_USE[op])
 
     def composite(self, comp, type_expr, byte, path, tag):
+        tag = self.comp_tag.get(id(comp), tag)
         for e, off in self.m.composite_layout(comp)[0]:
             if off is None:
                 continue
